@@ -43,6 +43,7 @@ def evOf (j : Json) : Except String Ev := do
   | [Json.str "step", p] => pure (.step (← p.getNat?))
   | [Json.str "crash", p] => pure (.crash (← p.getNat?))
   | [Json.str "modify", Json.bool t] => pure (.modify t)
+  | [Json.str "replace", m] => pure (.replace (← m.getNat?))
   | [Json.str "tick"] => pure .tick
   | _ => throw s!"bad event {j.compress}"
 
@@ -54,6 +55,7 @@ def evJson : Ev → Json
   | .step p => Json.arr #[Json.str "step", toJson p]
   | .crash p => Json.arr #[Json.str "crash", toJson p]
   | .modify t => Json.arr #[Json.str "modify", Json.bool t]
+  | .replace m => Json.arr #[Json.str "replace", toJson m]
   | .tick => Json.arr #[Json.str "tick"]
 
 def evsOf (j : Json) (k : String) : Except String (List Ev) := do
@@ -92,7 +94,8 @@ def observe (s0 : State) (evs : List Ev) : Json :=
     ("clock", toJson s.clock),
     ("hist_ok", Json.bool (histOK s0 evs)),
     ("no_mod_during_store", Json.bool (histNoModDuringStore s0 evs)),
-    ("fine_clock", Json.bool (histFineClock evs))]
+    ("fine_clock", Json.bool (histFineClock evs)),
+    ("ticks", Json.bool (histTicks evs))]
 
 /-- all maximal schedules (depth first): operations still to spawn, running processes,
     a budget of modifications and of crashes.  A load / check is spawned together with its
